@@ -128,7 +128,7 @@ def run(tier, replay):
             os.makedirs(sdir, exist_ok=True)
             reps = checklib.run_workers(CID, bins[s[0]], s[2], tier, s[4], dl, sdir)
             per_seam[s[0]] = {"evaluations": sum(r.get("evaluations", 0) for r in reps),
-                              "violations": sum(r.get("n_violations", 0) for r in reps),
+                              "violations_including_known": sum(r.get("n_violations", 0) for r in reps),
                               "exhaustive": all(r.get("exhaustive", False) for r in reps),
                               "wall_s": round(time.time() - ts, 1)}
             checklib.log("seam %s: %s" % (s[0], per_seam[s[0]]))
